@@ -180,3 +180,53 @@ def atmos_table(env):
                   for k in cols for i, h in enumerate(alt))
     env.holds("C17", "the interpolants reproduce the table at its nodes", node_ok)
     env.assumptions.add("atmosphere: consistency between table nodes is sampled at mid-points only (Akima interpolation of data)")
+
+
+@job("c17.total_performance_wiring", ("C17",), cfgs=[dict(nsurf=1, user_sref=False), dict(nsurf=2, user_sref=True), dict(nsurf=2, user_sref=False, _tier=T)])
+def total_performance_wiring(env, nsurf, user_sref):
+    """one quantity, one value: inside the real TotalPerformance group every component that takes the reference area, the
+    dynamic-pressure inputs, the weights, the lift and drag coefficients or the fuel burn reads it from the same source
+    (the user's reference area when one is specified, the summed area otherwise) - so that L_equals_W, L, D, CM and the
+    fuel burn are stated about the same aircraft"""
+    import openmdao.api as om
+    import warnings
+    from .c01_components import two_surfaces
+    surfs = two_surfaces(dict(nx=2, ny=2, symmetry=True, side="left", nsurf=nsurf, tail_sym=True))
+    p = om.Problem(reports=False)
+    p.model.add_subsystem("tp", cls("functionals.total_performance.TotalPerformance")(surfaces=surfs, user_specified_Sref=user_sref,
+                                                                                        internally_connect_fuelburn=True), promotes=["*"])
+    import re as _re
+    with warnings.catch_warnings():
+        warnings.simplefilter("ignore")
+        for _ in range(30):
+            # promoted inputs with different declared defaults need one default each (what a user script does)
+            try:
+                p.setup()
+                p.final_setup()
+                break
+            except RuntimeError as e:
+                names = _re.findall(r"inputs promoted to '([^']+)' have different", str(e))
+                if not names:
+                    raise
+                for nm_ in names:
+                    p.model.set_input_defaults(nm_, val=1.0)
+    conn = p.model._conn_global_abs_in2out
+    by = {}
+    for tgt, src in conn.items():
+        by.setdefault(tgt.rsplit(".", 1)[-1], {}).setdefault(src, []).append(tgt)
+    shared = ["S_ref_total", "rho", "v", "W0", "load_factor", "CL", "CD", "fuelburn", "R", "CT", "speed_of_sound", "Mach_number", "cg"]
+    shared += [s["name"] + sfx for s in surfs for sfx in ("_structural_mass", "_S_ref", "_cg_location")]
+    seen = 0
+    for nm in shared:
+        srcs = by.get(nm, {})
+        if not srcs:
+            continue
+        seen += 1
+        env.holds("C17", "TotalPerformance: every component reads %s from one source" % nm, len(srcs) == 1,
+                  "; ".join("%s <- %s" % (sorted(t)[0], s_) for s_, t in srcs.items()))
+    src = list(by.get("S_ref_total", {}))
+    if user_sref:
+        env.holds("C17", "the reference area is the user's when one is specified", len(src) == 1 and src[0].startswith("_auto_ivc"), str(src))
+    else:
+        env.holds("C17", "the reference area is the summed area otherwise", len(src) == 1 and src[0].endswith("sum_areas.S_ref_total"), str(src))
+    env.holds("C17", "the wiring scan saw the shared quantities", seen >= 8, "%d" % seen)
